@@ -308,8 +308,9 @@ func checkBinarySearch(c *Ctx, r *Rec, info *types.Info, set *types.Named, fd *a
 	env.resolve = func(e ast.Expr) (Val, bool) {
 		switch x := e.(type) {
 		case *ast.BinaryExpr:
-			if x.Op == token.QUO {
-				if tv := info.Types[x.Y]; tv.Value != nil && tv.Value.String() == "2" {
+			if x.Op == token.QUO || x.Op == token.SHR {
+				// N/2, and N>>1 (the same for the non-negative N the shift is applied to)
+				if tv := info.Types[x.Y]; tv.Value != nil && ((x.Op == token.QUO && tv.Value.String() == "2") || (x.Op == token.SHR && tv.Value.String() == "1")) {
 					num := env.eval(env.cur, x.X)
 					if num.Lin == nil {
 						return Val{}, false
